@@ -70,7 +70,7 @@ Qed.
 
 Lemma return_keeps c s t o :
   pcof s t = RLock o -> size s <= maxs s ->
-  step c s (Step t) = Some (tick (setpc (set_vec s (vec s ++ [o])) t RAdd)).
+  step c s (Step t) = Some (tick (setpc (set_vec s (vec s ++ [idle_at s o])) t RAdd)).
 Proof.
   intros Hpc Hle. cbn [step]. unfold step_task. rewrite Hpc.
   destruct (Z.leb (size s) (maxs s)) eqn:E; [reflexivity|apply Z.leb_gt in E; lia].
